@@ -109,7 +109,7 @@ LAYOUT_CYCLE = ["distinct", "shared", "mutnested", "shared"]
 def corpus():
     out = []
     for i, p in enumerate(_corpus_programs()):
-        out.extend(c08._cases_for(p, 720, 20, i))
+        out.extend(c08._cases_for(p, c08.CORPUS_ORDERS[0], c08.CORPUS_ORDERS[1], i))
     for i, p in enumerate(_large_programs()):   # no eager exploration here: 2^200 subsets
         out.extend(c08._cases_for(p, 4, 2, 100 + i, configs=("bexec", "brt", "aio", "aiot", "pool", "prom")))
     return out
@@ -127,8 +127,8 @@ def _with_error_at(prog, i):
 def generate(rng, tier):
     global SHARD
     quick = tier == "quick"
-    SHARD = 8 if quick else 8
-    limit, samples = (720, 30) if quick else (5040, 200)
+    SHARD = 8
+    limit, samples = (120, 12) if quick else (5040, 200)
     cases = [c for c in c08.nested_cases(rng, quick) if c["nested"]["op"] == "mutation"]
     for i, p in enumerate(c08.eager_programs(quick, op="mutation")):
         if i % (3 if quick else 2) == 0:
